@@ -294,6 +294,9 @@ func ApplyExt(w *WS, e *Ext, s Step) string {
 	if t == nil {
 		return ""
 	}
+	if t.NoCommand && s.Kind != "clear-switches" {
+		return "" // the switches act inside commands
+	}
 	id := t.ID()
 	switch s.Kind {
 	case "set-fail":
@@ -303,11 +306,20 @@ func ApplyExt(w *WS, e *Ext, s Step) string {
 		e.Fail[id] = true
 		return "fail " + t.Label()
 	case "clear-switches":
-		if len(e.Fail)+len(e.SlowSec)+len(e.SkipOut)+len(e.SelfKill)+len(e.WrongEst) == 0 {
+		if len(e.Fail)+len(e.SlowSec)+len(e.SkipOut)+len(e.SelfKill)+len(e.WrongEst)+len(e.Soft) == 0 {
 			return ""
 		}
-		e.Fail, e.SlowSec, e.SkipOut, e.SelfKill, e.WrongEst = map[string]bool{}, map[string]int{}, map[string]int{}, map[string]bool{}, map[string]bool{}
+		e.Fail, e.SlowSec, e.SkipOut, e.SelfKill, e.WrongEst, e.Soft = map[string]bool{}, map[string]int{}, map[string]int{}, map[string]bool{}, map[string]bool{}, map[string]bool{}
 		return "clear switches"
+	case "set-softfail":
+		if e.Soft == nil {
+			e.Soft = map[string]bool{}
+		}
+		if e.Soft[id] {
+			return ""
+		}
+		e.Soft[id] = true
+		return "softfail " + t.Label()
 	case "set-selfkill":
 		if e.SelfKill[id] {
 			return ""
